@@ -68,3 +68,35 @@ Example C11_fixed_same_prefix :
   exists s th, run init e2_c11_prefix = Some s /\ get_thread (threads s) 2 = Some th /\
                t_resp th = Some (RErr EConflict) /\ v_refs s = [7%N].
 Proof. exact e2_c11_fixed_same_prefix. Qed.
+
+(* ---- cancellation of a request's context (ACancel / AResumeCancelled) ------------------------------------------------ *)
+(* a request that waits for its account locks and whose context is done gives up: it gives its reference back and
+   nothing is stored -- a later request with the same reference is not refused on its account *)
+Theorem C11_cancelled_releases_ref : forall s t s', reachable s -> step s (AResumeCancelled t) = Some s' ->
+  exists th, get_thread (threads s) t = Some th /\
+    v_refs s' = (if N.eqb (rq_ref (t_req th)) 0 then v_refs s else remove_N (rq_ref (t_req th)) (v_refs s)) /\
+    persisted s' = persisted s.
+Proof. exact e2_cancelled_releases_ref. Qed.
+Print Assumptions C11_cancelled_releases_ref.
+
+(* it held the reference itself, nobody holds it afterwards, and no entry on disk or in flight carries it *)
+Theorem C11_cancelled_ref_fresh : forall s t s', reachable s -> step s (AResumeCancelled t) = Some s' ->
+  exists th, get_thread (threads s) t = Some th /\ (rq_ref (t_req th) <> 0%N ->
+       In (rq_ref (t_req th)) (v_refs s) /\ ~ In (rq_ref (t_req th)) (v_refs s') /\
+       forall x, In x (persisted s' ++ inflight s') -> e_ref x <> rq_ref (t_req th)).
+Proof. exact e2_cancelled_ref_fresh. Qed.
+Print Assumptions C11_cancelled_ref_fresh.
+
+(* non-vacuity: request 2 (reference 9) queues, is cancelled, answers [ELockCancelled]; the new request 3 with
+   reference 9 commits; one entry with the reference (the schedule of C07_cancel_example_retry) *)
+Example C11_cancel_example :
+  exists s th2 th3,
+    run init (e2_cancel_prefix ++ [ACancel 2; AResumeCancelled 2] ++ e2_cancel_retry) = Some s /\
+    get_thread (threads s) 2 = Some th2 /\ get_thread (threads s) 3 = Some th3 /\
+    rq_ik (t_req th2) = 7%N /\ rq_ref (t_req th2) = 9%N /\ t_req th3 = t_req th2 /\
+    t_resp th2 = Some (RErr ELockCancelled) /\ t_resp th3 = Some (ROk (Some 2)) /\
+    map (fun e => (e_owner e, e_ik e, e_ref e)) (persisted s) = [(0, 0%N, 0%N); (1, 0%N, 0%N); (3, 7%N, 9%N)] /\
+    count_where (fun e => N.eqb (e_ik e) 7) (persisted s) = 1 /\
+    count_where (fun e => N.eqb (e_ref e) 9) (persisted s) = 1 /\
+    v_iks s = [] /\ v_refs s = [] /\ v_locks s = [] /\ v_queue s = [].
+Proof. exact e2_cancel_then_retry. Qed.
